@@ -57,6 +57,16 @@ theorem unauth_never_effect (c : Cmd) (hc : c ∈ genCfg.cmds) (hn : c.name ∉ 
   have := (List.all_eq_true.mp h) _ (List.mem_map_of_mem hp)
   simpa using this
 
+/-- the `DbmsUnauth` wrapper of a connection is removed (`ss.sc.dbms = …`) by no command other
+    than `cmdAuth`, and there only on paths that called `ss.auth` before. -/
+theorem wrapper_removed_only_by_auth :
+    (genCfg.cmds.all fun c => c.paths.all fun p =>
+      if p.contains (.call "set:ss.sc.dbms") then
+        c.name == "cmdAuth" &&
+          (p.takeWhile (· != .call "set:ss.sc.dbms")).contains (.call "ss.auth")
+      else true) = true := by
+  decide
+
 /-- `handles_unobtainable`: in every state reachable from a locked server by any sequence of
     requests on any connections, a connection that is (still) unauthenticated owns no
     transaction, query or cursor. -/
